@@ -7,6 +7,7 @@ import (
 	"fmt"
 	"io"
 	"reflect"
+	"regexp"
 	"strings"
 	"sync"
 	"unsafe"
@@ -232,8 +233,14 @@ func ownDoc(r *core.Rand) []byte {
 		s = strings.ReplaceAll(s, `"u8":"`, `"u8":"0`)
 		s = strings.ReplaceAll(s, `"I":"00-`, `"I":"-00`)
 	}
+	if r.Bool() {
+		// a json.Number may be given as a JSON string holding the number
+		s = quoteNumberRe.ReplaceAllString(s, `"N":"$1"`)
+	}
 	return []byte(s)
 }
+
+var quoteNumberRe = regexp.MustCompile(`"N":(-?[0-9][0-9.eE+-]*)`)
 
 func runDecodeOwnership(c *core.Case) {
 	r := c.Rng
@@ -415,8 +422,104 @@ type recT struct {
 	Blob []byte
 }
 
+// topLevelStability: a stream of bare values decoded one by one into *RawMessage, *Number, *string
+// or *any targets; everything returned earlier must keep its contents.
+func topLevelStability(c *core.Case) {
+	r := c.Rng
+	kind := (c.Index / 3) % 4
+	var stream bytes.Buffer
+	var want []string
+	n := r.Range(200, 3000)
+	for i := 0; i < n; i++ {
+		var lit string
+		switch kind {
+		case 0: // RawMessage: any value
+			lit = core.Pick(r, []string{`{"k":"` + r.ASCIIString(0, 30) + `"}`, `[1,2,"` + r.ASCIIString(0, 9) + `"]`, `"` + r.ASCIIString(0, 40) + `"`, jsondoc.Number(r)})
+		case 1: // Number
+			lit = jsondoc.Number(r)
+			if !stdjson.Valid([]byte(lit)) {
+				lit = "12345678"
+			}
+		default: // string / any
+			lit = `"` + r.ASCIIString(2, 50) + `"`
+		}
+		stream.WriteString(lit)
+		stream.WriteString(core.Pick(r, []string{"\n", " ", "\n\n"}))
+		want = append(want, lit)
+	}
+	data := stream.Bytes()
+	dec := json.NewDecoder(&chunked{data: data, step: core.Pick(r, []int{1 << 20, 4096, 777, 50000})})
+	got := make([]string, 0, n)
+	var raws []json.RawMessage
+	var nums []json.Number
+	var strs []string
+	var anys []any
+	for {
+		var err error
+		switch kind {
+		case 0:
+			var v json.RawMessage
+			err = dec.Decode(&v)
+			raws = append(raws, v)
+		case 1:
+			var v json.Number
+			err = dec.Decode(&v)
+			nums = append(nums, v)
+		case 2:
+			var v string
+			err = dec.Decode(&v)
+			strs = append(strs, v)
+		default:
+			var v any
+			err = dec.Decode(&v)
+			anys = append(anys, v)
+		}
+		if err != nil {
+			if err != io.EOF {
+				c.Violation("decoder-stability|top-level", "decode-error", fmt.Sprintf("Decoder failed on a valid stream of %d bare values: %v", n, err), nil)
+				return
+			}
+			break
+		}
+	}
+	burst(r, 1)
+	for i := 0; i < n; i++ {
+		var g string
+		switch kind {
+		case 0:
+			if i < len(raws) {
+				g = string(raws[i])
+			}
+		case 1:
+			if i < len(nums) {
+				g = string(nums[i])
+			}
+		case 2:
+			if i < len(strs) {
+				g = `"` + strs[i] + `"`
+			}
+		default:
+			if i < len(anys) {
+				s, _ := anys[i].(string)
+				g = `"` + s + `"`
+			}
+		}
+		got = append(got, g)
+		if g != want[i] {
+			c.Violation("decoder-stability|top-level", "earlier-value-changed", fmt.Sprintf("value #%d of %d decoded into a top-level %s target no longer has its contents after later Decode calls: now %q, the stream held %q", i, n, []string{"*RawMessage", "*Number", "*string", "*any"}[kind], tr([]byte(g)), tr([]byte(want[i]))), map[string]any{"values": n, "target": kind})
+			return
+		}
+	}
+	c.Count("decoder.top-level-values", n)
+	c.Distinct(core.HashBytes(data), true)
+}
+
 func runDecoderStability(c *core.Case) {
 	c.Journal("decoder-stability")
+	if c.Index%3 == 2 {
+		topLevelStability(c)
+		return
+	}
 	r := c.Rng
 	var stream bytes.Buffer
 	var want []recT
@@ -550,7 +653,7 @@ func runTokenizerOwnership(c *core.Case) {
 func init() {
 	core.Register(&core.Monitor{
 		Prop:    "C10",
-		Rule:    "decode-ownership: a document (a struct covering strings, a >64-byte field name, Number, RawMessage, []byte, five map kinds, interfaces, ',string'; or a generated type), optionally re-spelled with upper-case keys and \\u escapes or mutated, is placed inside a canary-filled backing array and parsed under a rotating subset of the 9 public ParseFlags: the whole backing array must be unchanged; every string/Number/RawMessage/[]byte/map-key leaf (len>=2) of the result is classified by address as inside or outside the input buffer and may be inside only under its own DontCopy flag; without zero-copy flags the input is then overwritten with 0xAA, a burst of Marshal/Encode/Unmarshal/Tokenizer/Decoder calls runs on 5 goroutines and the value must still equal a reference decode. marshal-stability: results of Marshal/Encoder are snapshotted, concurrently read while bursts run (race build) and re-compared; re-marshalling gives identical bytes. decoder-stability: 20-400 records (some 4-40 KB) through Decoder with chunked readers; every earlier record must keep its contents after all later Decode calls. tokenizer-ownership: String()/Unquote results and AppendUnescape. Distinct by (document, flags).",
+		Rule:    "decode-ownership: a document (a struct covering strings, a >64-byte field name, Number, RawMessage, []byte, five map kinds, interfaces, ',string'; or a generated type), optionally re-spelled with upper-case keys and \\u escapes or mutated, is placed inside a canary-filled backing array and parsed under a rotating subset of the 9 public ParseFlags: the whole backing array must be unchanged; every string/Number/RawMessage/[]byte/map-key leaf (len>=2) of the result is classified by address as inside or outside the input buffer and may be inside only under its own DontCopy flag; without zero-copy flags the input is then overwritten with 0xAA, a burst of Marshal/Encode/Unmarshal/Tokenizer/Decoder calls runs on 5 goroutines and the value must still equal a reference decode. marshal-stability: results of Marshal/Encoder are snapshotted, concurrently read while bursts run (race build) and re-compared; re-marshalling gives identical bytes. decoder-stability: 20-400 records (some 4-40 KB), or 200-3000 bare values decoded into top-level *RawMessage / *Number / *string / *any targets, through Decoder with chunked readers; every earlier record must keep its contents after all later Decode calls. tokenizer-ownership: String()/Unquote results and AppendUnescape. Distinct by (document, flags).",
 		Trusted: []string{"address-range classification via reflect/unsafe in the harness", "encoding/json for reference decodes", "Go race detector for library writes into handed-out memory (race build)"},
 		Subs: []core.Sub{
 			{Name: "decode-ownership", N: core.Const(6000, 300000), Run: runDecodeOwnership},
